@@ -1,14 +1,36 @@
 import SdcModel.Basic.Io
 import SdcModel.UdpRepeat
+import SdcModel.UdpSendLoop
 open Sdc Sdc.UdpRepeat
 
+/-- `at msg maxInit repeats minDelay maxDelay upper init d` per call -/
+def parseAdds : List Nat → Option (List UdpSendLoop.Add)
+  | [] => some []
+  | a :: m :: p1 :: p2 :: p3 :: p4 :: p5 :: i :: d :: rest => (parseAdds rest).map (⟨a, m, ⟨p1, p2, p3, p4, p5⟩, i, d⟩ :: ·)
+  | _ => none
+
+def showOut (out : List (Nat × UdpSendLoop.Entry)) : String :=
+  let l := out.map (fun x => (x.1, x.2.msg, x.2.rep))
+  let l := l.toArray.qsort (fun a b => a.1 < b.1 || (a.1 == b.1 && (a.2.1 < b.2.1 || (a.2.1 == b.2.1 && a.2.2 < b.2.2))))
+  " ".intercalate (l.toList.map (fun x => s!"{x.1}:{x.2.1}:{x.2.2}"))
+
 /-- ops:  `sched maxInit repeats minDelay maxDelay upper init d`  ->  send times in ms
-          `maxlen n` | `out id` | `recv id`  (known-id window)   -/
+          `maxlen n` | `out id` | `recv id`  (known-id window)
+          `loop busy idle quitAt fuel (at msg maxInit repeats minDelay maxDelay upper init d)*` -> `done|more t:msg:rep ...` (µs) -/
 def stepLine (st : Nat × List String) (line : String) : (Nat × List String) × String :=
   match Io.words line with
   | "sched" :: rest =>
     match Io.parseNats rest with
     | some [a, b, c, d, e, i, g] => (st, Io.natList (schedule ⟨a, b, c, d, e⟩ i g))
+    | _ => (st, "bad-op")
+  | "loop" :: rest =>
+    match Io.parseNats rest with
+    | some (b :: i :: q :: f :: adds) =>
+      match parseAdds adds with
+      | some as =>
+        let r := UdpSendLoop.run ⟨b, i⟩ f (UdpSendLoop.start as q)
+        (st, (if r.2 then "done " else "more ") ++ showOut r.1.out)
+      | none => (st, "bad-op")
     | _ => (st, "bad-op")
   | ["maxlen", n] => match n.toNat? with
     | some k => ((k, []), "ok")
